@@ -19,6 +19,7 @@ CONCRETE_WATCHDOG_S = 20
 F = Fraction
 
 META = dict(
+    technique='symbolic execution of advanced.py through shims (list-backed set, exact numpy-linalg proxy) with a symbolic query point; z3 nlsat obligations; float replays',
     bounds=dict(
         quick="7 polylines with 1-3 segments plus one with a repeated vertex (collinear, acute, obtuse, closed, self-touching, non-uniform knots), symbolic query point "
               "anywhere in the plane; point on the curve (symbolic parameter)",
